@@ -195,7 +195,8 @@ def _gen_call(rng, kind: str, tier: str) -> dict:
                 for k in ("u", "v", "efix", "en", "emode", "en_dtype"):
                     e[k] = copy.deepcopy(runs[0][k])
         return {"op": "pix", "pix": _gen_pix(rng, tier), "runs": runs, "share_vars": share,
-                "n_dims": rng.choice([4, 4, 4, 0, 1, 2, 3])}
+                "n_dims": rng.choice([4, 4, 4, 0, 1, 2, 3]),
+                "api": {"n_dims_default": rng.random() < 0.3, "rows_explicit": rng.random() < 0.2}}
     if kind == "instrument":
         return {"op": "instrument", "name": _gstr(rng),
                 "source": {"name": _gstr(rng), "target": _gstr(rng),
@@ -371,6 +372,11 @@ def generate(rng, tier: str, i: int, prop: str, nested: bool = False) -> dict:
         "default_chunk": rng.random() < 0.15,
         "permute_seed": rng.randrange(1 << 30) if len(calls) > 1 and rng.random() < 0.5 else None,
         "recreate": sink == "path" and rng.random() < 0.3,
+        "api": {"title_default": rng.random() < 0.5, "byteorder_default": rng.random() < 0.5,
+                "byteorder_enum": rng.random() < 0.4},
+        # how the file is read back: name style, block order, byte order given or deduced
+        "reader": {"style": rng.choice(["tuple", "two"]), "order": rng.choice(["forward", "reverse", "twice"]),
+                   "byteorder_arg": rng.random() < 0.3},
         # str or pathlib target; something else already at the path (shorter, longer, empty)
         "path_as": rng.choice(["Path", "str"]),
         "preexist": rng.choice([None, None, 0, 10, 1 << 20]) if sink == "path" else None,
@@ -565,7 +571,13 @@ def apply_calls(sc, sqw, builder, calls: list[dict], inputs: list | None = None)
                 exps = [exps[0]] + [dataclasses.replace(e, u=exps[0].u, v=exps[0].v, efix=exps[0].efix,
                                                         en=exps[0].en) for e in exps[1:]]
             keep += [pix, *exps]
-            builder = builder.add_pixel_data(pix, experiments=exps, n_dims=c["n_dims"])
+            kw = {"experiments": exps, "n_dims": c["n_dims"]}
+            api = c.get("api") or {}
+            if api.get("n_dims_default") and c["n_dims"] == 4:
+                del kw["n_dims"]  # 4 is the documented default
+            if api.get("rows_explicit"):
+                kw.update(rows=PIX_ROWS, row_units=ROW_UNITS)  # the defaults, spelled out
+            builder = builder.add_pixel_data(pix, **kw)
         elif op == "pix_bad":
             # a call the builder must refuse; afterwards it must behave as if never made
             pix = make_pixels(sc, c["pix"])
@@ -743,7 +755,15 @@ class SqwEngine(Engine):
         inputs: list = []
 
         def run():
-            builder = sqw.Sqw.build(sink, title=scn["title"], byteorder=scn["byteorder"])
+            api = scn.get("api") or {}
+            bkw = {"title": scn["title"], "byteorder": scn["byteorder"]}
+            if api.get("title_default") and scn["title"] == "":
+                del bkw["title"]
+            if api.get("byteorder_default") and scn["byteorder"] == "native":
+                del bkw["byteorder"]
+            elif api.get("byteorder_enum") and scn["byteorder"] != "native":
+                bkw["byteorder"] = sqw.Byteorder(scn["byteorder"])
+            builder = sqw.Sqw.build(sink, **bkw)
             builder = apply_calls(sc, sqw, builder, scn["calls"] if calls is None else calls, inputs)
             if keep is not None:
                 from .. import canon
@@ -1684,10 +1704,18 @@ def _judge_reader(self, scn, ctx, fin, sink, dec):
             sink.seek(0)
         with warnings.catch_warnings(record=True) as wlist:
             warnings.simplefilter("always")
-            with sqw.Sqw.open(sink) as f:
-                for name in list(f.data_block_names()):
+            rd = scn.get("reader") or {}
+            kw = {}
+            if rd.get("byteorder_arg"):
+                kw["byteorder"] = {"native": sys.byteorder}.get(scn["byteorder"], scn["byteorder"])
+            with sqw.Sqw.open(sink, **kw) as f:
+                names = list(f.data_block_names())
+                # blocks are addressed by position: any order, any number of times, either way of
+                # giving the name
+                order = {"reverse": names[::-1], "twice": names + names[::-1]}.get(rd.get("order"), names)
+                for name in order:
                     try:
-                        blocks[name] = f.read_data_block(name)
+                        blocks[name] = f.read_data_block(*name) if rd.get("style") == "two" else f.read_data_block(name)
                     except Exception as e:  # noqa: BLE001
                         bad("/".join(name), f"read_data_block raised {type(e).__name__}: {e}",
                             exc=type(e).__name__)
